@@ -5,8 +5,16 @@ import RQ.Extracted
 
 `BufRead::lines` (split at `\n`, a trailing `\r` removed, invalid UTF-8 ⇒ error), comment / blank
 lines, `split_whitespace`, then `getopts` with `optopt("p", "strip")` and `optflag("R", "reverse")`.
-`getopts` and `str::split_whitespace` are *modelled, not verified* (ASCII whitespace only); the `series`
-engine compares the model with the real function on generated lines.
+`getopts` and `str::split_whitespace` are *modelled, not verified*; the `series` engine compares the model with
+the real function on generated lines.
+
+`split_whitespace` splits at every Unicode `White_Space` character (`char::is_whitespace`): U+0009–U+000D, U+0020,
+U+0085, U+00A0, U+1680, U+2000–U+200A, U+2028, U+2029, U+202F, U+205F, U+3000.  The model works on the UTF-8 bytes
+(`wsLen`: the length of the white-space character at the head of the byte string).  `lines()` has already rejected
+invalid UTF-8 (`validUtf8`, checked in `collect` before the line is parsed), and on valid UTF-8 matching the byte
+patterns is exact: every pattern starts with an ASCII byte or a lead byte (C2, E1, E2, E3), never with a continuation
+byte (80..BF), so a pattern can only match at a character boundary, and there the lead byte with its continuation
+bytes *is* that character.
 -/
 namespace RQ.Series
 open RQ
@@ -20,15 +28,41 @@ deriving Repr, DecidableEq
 inductive Err | io | badOptions
 deriving Repr, DecidableEq
 
+/-- ASCII white space: U+0009–U+000D, U+0020 -/
 def isWs (c : UInt8) : Bool := c == 32 || (c ≥ 9 && c ≤ 13)
 
-/-- `str::split_whitespace` (ASCII) -/
-def splitWs : Bytes → Bytes → List Bytes
-  | [], [] => []
-  | [], cur => [cur]
-  | b :: bs, cur =>
-    if isWs b then (if cur.isEmpty then splitWs bs [] else cur :: splitWs bs [])
-    else splitWs bs (cur ++ [b])
+/-- two-byte white space: U+0085 (C2 85), U+00A0 (C2 A0) -/
+def isWs2 (b c : UInt8) : Bool := b == 0xC2 && (c == 0x85 || c == 0xA0)
+
+/-- three-byte white space: U+1680 (E1 9A 80), U+2000–U+200A (E2 80 80 … E2 80 8A), U+2028 (E2 80 A8),
+U+2029 (E2 80 A9), U+202F (E2 80 AF), U+205F (E2 81 9F), U+3000 (E3 80 80) -/
+def isWs3 (b c d : UInt8) : Bool :=
+  (b == 0xE1 && c == 0x9A && d == 0x80) ||
+  (b == 0xE2 && c == 0x80 && ((d ≥ 0x80 && d ≤ 0x8A) || d == 0xA8 || d == 0xA9 || d == 0xAF)) ||
+  (b == 0xE2 && c == 0x81 && d == 0x9F) ||
+  (b == 0xE3 && c == 0x80 && d == 0x80)
+
+/-- the length in bytes of the Unicode `White_Space` character (UTF-8) at the head of the byte string; 0 if there is
+none -/
+def wsLen : Bytes → Nat
+  | [] => 0
+  | [b] => if isWs b then 1 else 0
+  | [b, c] => if isWs b then 1 else if isWs2 b c then 2 else 0
+  | b :: c :: d :: _ => if isWs b then 1 else if isWs2 b c then 2 else if isWs3 b c d then 3 else 0
+
+/-- `splitWs` with the number of bytes still to skip (the continuation bytes of the white-space character whose lead
+byte was just seen; `cur` is empty while skipping) -/
+def splitWsSkip : Nat → Bytes → Bytes → List Bytes
+  | _, [], [] => []
+  | _, [], cur => [cur]
+  | k+1, _ :: bs, cur => splitWsSkip k bs cur
+  | 0, b :: bs, cur =>
+    match wsLen (b :: bs) with
+    | 0 => splitWsSkip 0 bs (cur ++ [b])
+    | n+1 => if cur.isEmpty then splitWsSkip n bs [] else cur :: splitWsSkip n bs []
+
+/-- `str::split_whitespace` (Unicode `White_Space`, on UTF-8 bytes) -/
+def splitWs (bs cur : Bytes) : List Bytes := splitWsSkip 0 bs cur
 
 /-- `BufRead::lines`: split at `\n`; the final piece only if non-empty; strip one trailing `\r` -/
 def splitLines : Bytes → Bytes → List Bytes
